@@ -127,6 +127,21 @@ Theorem backup_names_listed_and_found : forall R fuel root entries e,
 Proof. exact ProofsTreeBS.backup_names_listed_and_found. Qed.
 Print Assumptions backup_names_listed_and_found.
 
+(* for a repository all of whose trees were written by backup nothing else has to be assumed:
+   the listing shows nodes made from source entries under their raw names, and finds them *)
+Theorem backup_repo_lookup : forall bsearch stored, negb (bsearch && stored) = true ->
+  forall R fuel root path n, written_by_backup R ->
+  In (path, n) (ls fuel R root) -> node_from_path bsearch stored R root path = Some n.
+Proof. exact ProofsTreeBS.backup_repo_lookup. Qed.
+Print Assumptions backup_repo_lookup.
+
+Theorem backup_repo_listing : forall fuel R nodes prefix path n, written_by_backup R ->
+  (exists entries, entries_ok entries /\ nodes = backup_tree entries) ->
+  In (path, n) (ls_nodes fuel R nodes prefix) ->
+  exists e pre, n = mk_node e /\ bytes_ok (entry_name e) /\ path = pre ++ [entry_name e].
+Proof. exact ProofsTreeBS.backup_repo_listing. Qed.
+Print Assumptions backup_repo_listing.
+
 (* the scan comparing node.name() needs nothing but distinct names (no assumption on how the
    names are stored: also names that fail to unescape are found under their fallback) *)
 Theorem node_from_path_scan_finds_listed : forall R fuel root path n, wf_repo R ->
